@@ -248,9 +248,85 @@ class GhostVal:
     def pv_binop(self, opname, other, reflected):
         self._no("operator %s" % opname)
 
+    def pv_unop(self, opname):
+        self._no("unary %s" % opname)
+
     def pv_truthy(self):
         n = self.pv_len()
         return n != 0
+
+
+class PointwiseSeq(GhostVal):
+    """an immutable list of (possibly symbolic) length whose k-th element is fn(k), evaluated on demand; used for
+    comprehensions over ghost sequences, their flattening by sum(..., []) and concatenations with ordinary lists"""
+    pv_pytype = "list"
+
+    def __init__(self, length, fn, label="pointwise"):
+        self.length = length            # int or z3 int term (>= 0)
+        self.fn = fn
+        self.label = label
+
+    def pv_len(self):
+        return self.length if isinstance(self.length, int) else mk_int(self.length)
+
+    def pv_getitem(self, k):
+        if isinstance(k, slice):
+            raise OutOfSubset("slice of a pointwise list")
+        n = self.pv_len()
+        if isinstance(k, (bool, SBool)):
+            k = k + 0
+        if not isinstance(k, (int, SInt)):
+            raise PyRaise(TypeError("list indices must be integers or slices"))
+        ok = (k >= -n) & (k < n) if not (isinstance(k, int) and isinstance(n, int)) else (-n <= k < n)
+        if not bool(ok):
+            raise PyRaise(IndexError("list index out of range"))
+        neg = k < 0
+        if isinstance(neg, bool):
+            j = k + n if neg else k
+        else:
+            j = (k + n) if bool(neg) else k
+        return self.fn(j)
+
+    def pv_iter(self):
+        if isinstance(self.length, int) and self.length <= UNROLL_LIMIT:
+            return [self.fn(i) for i in range(self.length)]
+        return None
+
+    def pv_copy(self):
+        return PointwiseSeq(self.length, self.fn, self.label)
+
+    def pv_binop(self, opname, other, reflected):
+        if opname != "Add":
+            self._no("operator %s" % opname)
+        return concat_seqs(other, self) if reflected else concat_seqs(self, other)
+
+
+def _seq_len(x):
+    if isinstance(x, PointwiseSeq):
+        return x.pv_len()
+    if isinstance(x, VList):
+        return x.len()
+    raise OutOfSubset("concatenation with %r" % (x,))
+
+
+def _seq_get(x, j):
+    if isinstance(x, PointwiseSeq):
+        return x.fn(j)
+    return x.get(j)
+
+
+def concat_seqs(a, b):
+    """a + b for lists of which at least one is pointwise: again pointwise"""
+    la, lb = _seq_len(a), _seq_len(b)
+    tot = la + lb
+    length = tot if isinstance(tot, int) else z3.simplify(tot.t)
+
+    def fn(j):
+        if bool(j < la):
+            return _seq_get(a, j)
+        return _seq_get(b, j - la)
+
+    return PointwiseSeq(length, fn, "concat")
 
 
 _obj_ids = {}
